@@ -42,7 +42,7 @@ def norm_events(evs, is_model, model_evs=None):
     """project an event list onto what model and implementation are compared on"""
     out = []
     for e in evs:
-        if e in ("Q", "REG", "DEREG") or e.startswith("!"):
+        if e in ("Q", "REG", "DEREG") or e.startswith("!") or e.startswith("I:") or e.startswith("T:"):
             if e.startswith("!"):
                 out.append(e)
             continue
@@ -133,7 +133,7 @@ def correspond(iobs, mobs):
         # without command spans the calls of a map-iterating command cannot be delimited: sort each run of calls between replies
         out, run = [], []
         for e in evs:
-            if e in ("RS", "RF", "SF") or e.startswith("SS:"):
+            if e in ("RS", "RF", "SF") or e.startswith("SS:") or e.startswith("I:") or e.startswith("T:"):
                 continue
             if e.startswith("C:"):
                 p = e.split(":", 5)
